@@ -236,7 +236,8 @@ func runC14(c *Ctx, idx int, o *Obs) {
 		_ = tmpFile(c, "t.nw", text+"\n")
 		inArgs, inStdin, inMode := presentTrees(c, r, "t-alt", []string{text}, plainNewick(text))
 		o.Ev("cli_input:"+inMode, 1)
-		res := runCLI(c, inStdin, append(append([]string{"matrix"}, inArgs...), "-m", "brlen")...)
+		res, outMode := runCLIOut(c, r, inStdin, append(append([]string{"matrix"}, inArgs...), "-m", "brlen")...)
+		o.Ev("cli_output:"+outMode, 1)
 		o.Ev("cli", 1)
 		if o.Check(res.Exit == 0 && !res.Panic, "cli_matrix_failed", res.brief(), text) {
 			lines := strings.Split(strings.TrimRight(res.Stdout, "\n"), "\n")
